@@ -7,6 +7,8 @@ import os
 
 HERE = os.path.dirname(os.path.dirname(os.path.abspath(__file__)))
 HOLD = {}  # property -> reason it is deliberately not claimed although a module exists
+# a property is claimed only once reviewed: listed in tools/ready.txt
+READY = set(open(os.path.join(HERE, "tools", "ready.txt")).read().split())
 
 
 def consts(path):
@@ -30,7 +32,7 @@ def main():
         pid = p["id"]
         path = os.path.join(HERE, "harness", "checks", pid.lower() + ".py")
         c = consts(path) if os.path.exists(path) else {}
-        if pid in HOLD or not all(k in c for k in ("TECHNIQUE", "LEVEL_TEXT", "LEVEL_NOTE")):
+        if pid not in READY or pid in HOLD or not all(k in c for k in ("TECHNIQUE", "LEVEL_TEXT", "LEVEL_NOTE")):
             na.append({"property_id": pid, "reason": HOLD.get(pid, c.get("NOT_APPLICABLE",
                 "check not built yet (the technique applies, see DESIGN.md section 6); not claimed until its check exists and is quiet on the unchanged tree"))})
             continue
